@@ -259,6 +259,7 @@ func (r *Run) Finish() int {
 		b, _ := json.MarshalIndent(v, "", " ")
 		os.WriteFile(v.file, b, 0o644)
 	}
+	os.Remove(filepath.Join(rdir, "_all.json"))
 	if len(unknown) > 0 {
 		os.MkdirAll(rdir, 0o755)
 		ab, _ := json.MarshalIndent(unknown, "", " ")
